@@ -36,7 +36,7 @@ def damage_content(ctx, scn, sri, D, how):
         scn.fs_symlink(ROOT + "/elsewhere", cpath)
 
 
-def checked(ctx, algo, damage, retrieval, api, nreads=3, dest_exists=False):
+def checked(ctx, algo, damage, retrieval, api, nreads=3, dest_exists=False, twice=False):
     scn = ctx.new_scn(api=api)
     if nreads < 3:
         scn.env.short_read_budget = 1
@@ -47,8 +47,14 @@ def checked(ctx, algo, damage, retrieval, api, nreads=3, dest_exists=False):
     if r.kind != "ok":
         return       # C02's business
     sri = r.value
+    if twice:
+        # the destination was produced by an earlier, successful extraction of the same entry (for hard links it
+        # IS the content file); the stored copy is damaged afterwards, then the extraction is repeated
+        first = scn.extract(retrieval, ROOT + "/out", sri=sri) if retrieval.endswith("_hash") else scn.extract(retrieval, ROOT + "/out", key="k")
+        if first.kind != "ok":
+            return
     damage_content(ctx, scn, sri, D, damage)
-    tag = "C01:%s:%s:%s" % (api, retrieval, damage)
+    tag = "C01:%s:%s:%s%s" % (api, retrieval, damage, ":again" if twice else "")
     what = "%s after damage '%s'" % (retrieval, damage)
     by_hash = retrieval.endswith("_hash")
     if retrieval in ("read", "read_hash"):
@@ -137,6 +143,14 @@ def tasks(tier, flavours):
         for retrieval in ("copy", "copy_hash"):
             out.append(dict(module="C01", family="checked", flavour=fl,
                             params=dict(algo=None, damage="none", retrieval=retrieval, api=api, nreads=2 if tier == "quick" else 3, dest_exists=True)))
+        for retrieval in ("hard_link", "hard_link_hash", "copy", "reflink"):
+            if api == "async" and retrieval == "hard_link_hash":
+                continue
+            if tier == "quick" and fl != "sync" and retrieval != "hard_link":
+                continue
+            for damage in ("replace", "truncate"):
+                out.append(dict(module="C01", family="checked", flavour=fl,
+                                params=dict(algo=None, damage=damage, retrieval=retrieval, api=api, nreads=2 if tier == "quick" else 3, twice=True)))
         if fl != "sync" and tier != "quick":
             for retrieval in ("read", "stream", "copy", "hard_link"):
                 out.append(dict(module="C01", family="checked", flavour=fl, params=dict(algo=None, damage="replace", retrieval=retrieval, api="sync")))
